@@ -46,6 +46,7 @@ CONSTANTS Mods,        \* module names
           SubTargets,  \* modules on which subscribe / unsubscribe are offered
           AutoVals,    \* auto-free flag values offered to the send calls
           SubOneshot,  \* one-shot flag values offered to subscribe
+          UdVals,      \* userdata versions offered to subscribe (0 / 1: the same pattern subscribed again with another userdata pointer)
           Senders,     \* modules that issue tell / publish / broadcast / pill in this configuration
           QuitCodes,   \* codes passed to m_ctx_quit
           ForeignOps,  \* module calls attempted from a thread that does not own the module's context (C14)
@@ -130,12 +131,14 @@ Init == S = InitOf(Setup)
 (* ------------------------------ message copies and payloads ------------------------------ *)
 \* a message copy in a mailbox / handed to a handler
 \* pr: priority of the subscription that matched at send time ("N" for direct tell / broadcast); ud: that subscription's pattern ("" = none)
-Msg(p, from, topic, sys) == [p |-> p, from |-> from, topic |-> topic, sys |-> sys, pr |-> "N", ud |-> "", os |-> FALSE]
+\* uv: version of the subscription's userdata the handler gets; bound when the message is taken from the mailbox (the library reads the
+\* subscription object then), 0 until then
+Msg(p, from, topic, sys) == [p |-> p, from |-> from, topic |-> topic, sys |-> sys, pr |-> "N", ud |-> "", os |-> FALSE, uv |-> 0]
 
 HasSrc(s, m, k, key) == \E x \in s.mod[m].src : x.k = k /\ x.key = key
 SrcOf(s, m, k, key) == CHOOSE x \in s.mod[m].src : x.k = k /\ x.key = key
 \* the event of a descriptor / timer source: no payload, the topic field carries "F<key>" / "T<key>", userdata = the key
-SrcEvt(k, key) == [p |-> 0, from |-> k, topic |-> "", sys |-> FALSE, pr |-> "N", ud |-> key, os |-> FALSE]
+SrcEvt(k, key) == [p |-> 0, from |-> k, topic |-> "", sys |-> FALSE, pr |-> "N", ud |-> key, os |-> FALSE, uv |-> 0]
 
 \* one copy of payload p disappears (delivered-and-released, discarded, or never written)
 Release1(pay, p) ==
@@ -146,6 +149,11 @@ RECURSIVE ReleaseAll(_, _)
 ReleaseAll(pay, ms) == IF ms = <<>> THEN pay ELSE ReleaseAll(Release1(pay, Head(ms).p), Tail(ms))
 
 SubPats(s, r) == {q.pat : q \in s.mod[r].subs}
+\* the userdata a message taken from r's mailbox now is handed over with: that of its subscription as it is now (a subscription
+\* updated in place since the message was sent shows its new userdata; the configurations that offer several userdata versions
+\* never replace or remove a subscription object while messages matched by it are pending)
+BindUd(s, r, msg) == IF msg.ud # "" /\ msg.ud \in SubPats(s, r)
+                       THEN [msg EXCEPT !.uv = (CHOOSE q \in s.mod[r].subs : q.pat = msg.ud).u] ELSE msg
 \* fetch_sub(): the literal subscription if there is one, else the (single) matching regular expression
 SubFor(s, r, topic) == IF topic \in SubPats(s, r) THEN CHOOSE q \in s.mod[r].subs : q.pat = topic
                        ELSE CHOOSE q \in s.mod[r].subs : Matches(q.pat, topic)
@@ -334,7 +342,7 @@ Step(s) ==
                     ELSE IF e[2] = "ps" THEN
                        \* a module's mailbox: read ONE message
                        IF r.mod[x].pipe = <<>> THEN Push(r, [f EXCEPT !.b = Tail(f.b)])
-                       ELSE LET msg == Head(r.mod[x].pipe)
+                       ELSE LET msg == BindUd(r, x, Head(r.mod[x].pipe))
                                 s1 == [rest EXCEPT !.mod[x].pipe = Tail(r.mod[x].pipe)]
                             IN IF msg.topic = "PILL"
                                  THEN Push([s1 EXCEPT !.pay = Release1(s1.pay, msg.p)], Fr("stop", x, TRUE, 0))
@@ -364,7 +372,7 @@ Step(s) ==
             IF f.b = <<>> THEN r
             ELSE LET x == Head(f.b)
                      rest == Push(r, [f EXCEPT !.b = Tail(f.b)])
-                     ms == r.mod[x].pipe
+                     ms == [i \in 1..Len(r.mod[x].pipe) |-> BindUd(r, x, r.mod[x].pipe[i])]
                      pills == {i \in 1..Len(ms) : ms[i].topic = "PILL"}
                      k == IF pills = {} THEN 0 ELSE CHOOSE i \in pills : \A j \in pills : i <= j
                      \* a pending poison pill: what was sent before it is delivered, then the module is stopped (the rest is dropped)
@@ -532,10 +540,10 @@ Pill(m, r) ==
        ELSE Rated(m, Ret(Deliver(S, <<r>>, Msg(0, m, "PILL", TRUE)), 0))
 
 \* a repeated subscription is updated in place (one subscription per pattern)
-Subscribe(m, q, pr, os) ==
-    /\ Can("Subscribe") /\ m \in SubTargets /\ Handle(m) /\ q \in Pats /\ pr \in Prios /\ os \in SubOneshot
+Subscribe(m, q, pr, os, u) ==
+    /\ Can("Subscribe") /\ m \in SubTargets /\ Handle(m) /\ q \in Pats /\ pr \in Prios /\ os \in SubOneshot /\ u \in UdVals
     /\ IF SubRefused(m) THEN Refuse(NEG)
-       ELSE Rated(m, [S EXCEPT !.mod[m].subs = {x \in @ : x.pat # q} \cup {[pat |-> q, pr |-> pr, os |-> os]}, !.ret = 0])
+       ELSE Rated(m, [S EXCEPT !.mod[m].subs = {x \in @ : x.pat # q} \cup {[pat |-> q, pr |-> pr, os |-> os, u |-> u]}, !.ret = 0])
 
 Unsubscribe(m, q) ==
     /\ Can("Unsubscribe") /\ m \in SubTargets /\ Handle(m) /\ q \in Pats
@@ -701,7 +709,7 @@ Next == \/ CtxRegister \/ CtxDeregister \/ CtxFinalize
                                  \/ Broadcast(m, p, auto)
                                  \/ \E r \in Mods : Tell(m, r, p, auto)
                                  \/ \E t \in Topics : Publish(m, t, p, auto)
-                           \/ \E q \in Pats : Unsubscribe(m, q) \/ \E pr \in Prios, os \in SubOneshot : Subscribe(m, q, pr, os)
+                           \/ \E q \in Pats : Unsubscribe(m, q) \/ \E pr \in Prios, os \in SubOneshot, u \in UdVals : Subscribe(m, q, pr, os, u)
                            \/ \E n \in BatchSizes : SetBatchSize(m, n)
                            \/ \E i \in 1..3 : Stash(m, i)
                            \/ \E n \in UnstashNs : Unstash(m, n)
